@@ -31,6 +31,8 @@ def dom_heuristic_ensures(kmax):
         ("C09.alternatives", f"forall(l, {T0}, {T1}, {U}[l, DOM_UPDATE_IDX] == dom_idx and {ev(f'{U}[l, DOM_UPDATE_EVENTS]', 'l')})"),
         ("C09.records_below", f"forall(l, 0, {T0}, {U}[l, 0] == old({U})[l, 0] and {U}[l, 1] == old({U})[l, 1])"),
         ("C09.records_wf", f"forall(l, {T0}, {T1}, {U}[l, DOM_UPDATE_EVENTS] < 8)"),
+        # every part is a strict sub-range (at least two non-empty disjoint parts): some bound of it moved
+        ("C09.moved", f"forall(l, {T0}, {T1} + 1, {S}[l, dom_idx, MIN] != {lo0} or {S}[l, dom_idx, MAX] != {hi0})"),
     ]
     return ens
 
